@@ -244,6 +244,10 @@ def _agree(c, io, mo, ctx):
         # largest |ratio ** exp| of the matching ("F", reported also when the model stops at a later error such as
         # a zero divisor) or the error-propagation magnitude M
         big = max(qparse(mo.get("F", "0/1")), qparse(mo["M"]) if "M" in mo else 0)
+        if "R" in mo:
+            # the largest exact magnitude of the whole evaluation, conversion factors included (a factor such as
+            # (H -> fH) ** 21 = 1e315 overflows in floats whatever value it is multiplied with, a zero value too)
+            big = max(big, qparse(mo["R"][1]))
         return None if big >= 10 ** 250 else \
             "impl raised OverflowError although every exact magnitude stays below 1e250 (F, M <= %.3g): model=%s" % (
                 float(big), {k: v for k, v in mo.items() if k in ("err", "v")})
@@ -838,6 +842,8 @@ def scale_only_result(s, db):
 
 
 def rel_close(a, b, scale=0.0, tol=1e-9):
+    if a == b:
+        return True  # also equal infinities (inf - inf is nan)
     return abs(a - b) <= tol * max(abs(a), abs(b), abs(scale)) + 1e-300
 
 
